@@ -31,7 +31,7 @@ import (
 
 // Op is one operation of a sequential history.
 type Op struct {
-	K string `json:"k"`           // open accept acceptnone cancel read write cw close rdl wdl dl settle
+	K string `json:"k"`           // open accept acceptnone cancel read write kick cw close rdl wdl dl settle
 	S int    `json:"s"`           // side performing the call
 	I int    `json:"i,omitempty"` // selects the stream end / pending open (modulo the number available)
 	N int    `json:"n,omitempty"` // buffer / payload size
@@ -43,6 +43,8 @@ func (o Op) String() string {
 	switch o.K {
 	case "read", "write":
 		return fmt.Sprintf("%s(side%d,#%d,n=%d,guard=%dms,clear=%v)", o.K, o.S, o.I, o.N, o.D, o.C)
+	case "kick":
+		return fmt.Sprintf("kick(side%d,#%d,n=%d,mode=%d,both=%v)", o.S, o.I, o.N, o.D, o.C)
 	case "rdl", "wdl", "dl":
 		return fmt.Sprintf("%s(side%d,#%d,d=%d)", o.K, o.S, o.I, o.D)
 	case "open", "accept", "acceptnone":
@@ -243,6 +245,8 @@ func (r *seqRun) step(op Op) bool {
 		return r.read(e, op)
 	case "write":
 		return r.write(e, op)
+	case "kick":
+		return r.kick(e, op)
 	case "cw":
 		var err error
 		if !within(stallBound, func() { err = e.st.CloseWrite() }) {
@@ -673,6 +677,85 @@ func (r *seqRun) write(e *sEnd, op Op) bool {
 		e.wdl = false
 	}
 	return true
+}
+
+// kick: a Write that must block on an exhausted send window (the peer does
+// not read) is released by another goroutine setting a past deadline; the
+// deadline is then cleared and a further one-byte Write is issued under a short deadline of its own. This is
+// the only operation with two overlapping calls; where the Write would not
+// block it degenerates to an ordinary write.
+func (r *seqRun) kick(e *sEnd, op Op) bool {
+	n := max(op.N, 1)
+	if n > len(r.buf) {
+		n = len(r.buf)
+	}
+	if e.closed || e.cw || e.wdl || e.peer == nil || e.peer.closed || r.writeReturns(e, n) {
+		return r.write(e, op)
+	}
+	w := r.window(e.peer.side)
+	data := make([]byte, n)
+	fill(data, e.key, e.written)
+	ch := asyncCall(func() (int, error) { return e.st.Write(data) })
+	// Let the writer use up the window and park.
+	r.p.link.WaitIdle(e.side, 50*time.Millisecond)
+	time.Sleep(time.Millisecond)
+	past := time.Now().Add(-time.Second)
+	var err error
+	if !within(stallBound, func() {
+		if op.C {
+			err = e.st.SetDeadline(past)
+		} else {
+			err = e.st.SetWriteDeadline(past)
+		}
+	}) {
+		return r.stall(fmt.Sprintf("SetWriteDeadline while a Write is blocked on side %d stream %d", e.side, e.id))
+	}
+	if err != nil {
+		return r.fail("setting a past deadline on open stream %d (side %d) returned %v", e.id, e.side, err)
+	}
+	e.wdl = true
+	if op.C {
+		e.rdl = true
+	}
+	res, ok := awaitCall(ch, stallBound)
+	if !ok {
+		return r.stall(fmt.Sprintf("Write blocked on an exhausted window on side %d stream %d after a past deadline was set", e.side, e.id))
+	}
+	r.logf("side%d stream%d Write(%d) blocked, past deadline set concurrently -> %d, %s", e.side, e.id, n, res.n, errName(res.err))
+	if res.n < 0 || res.n > n {
+		return r.fail("Write(%d bytes) on side %d stream %d returned count %d", n, e.side, e.id, res.n)
+	}
+	e.written += uint64(res.n)
+	r.moved += uint64(res.n)
+	if e.written-e.peer.read > w {
+		return r.fail("Write on side %d stream %d accepted %d bytes: %d bytes now unconsumed by the peer, its receive window is %d", e.side, e.id, res.n, e.written-e.peer.read, w)
+	}
+	if res.err == multiplexing.ErrMultiplexerClosed {
+		return true
+	}
+	if !errors.Is(res.err, os.ErrDeadlineExceeded) {
+		return r.fail("Write on side %d stream %d, blocked on an exhausted window and given a past deadline, returned (%d, %v)", e.side, e.id, res.n, res.err)
+	}
+	r.class("deadline-expiry")
+	r.class("blocked-write-kicked")
+	// Clear, then write again: the window is still exhausted. (Moving the
+	// deadline to the future instead is left to the rdl/wdl/dl operations:
+	// this implementation keeps an expired deadline expired until the zero
+	// time is set, which C23-C25 do not speak about.)
+	var t time.Time
+	if op.C {
+		err = e.st.SetDeadline(t)
+	} else {
+		err = e.st.SetWriteDeadline(t)
+	}
+	if err != nil {
+		return r.fail("resetting the deadline on open stream %d (side %d) returned %v", e.id, e.side, err)
+	}
+	e.wdl = false
+	if op.C {
+		e.rdl = false
+	}
+	return r.write(e, Op{K: "write", S: op.S, I: op.I, N: 1, D: 2, C: true})
 }
 
 func (r *seqRun) deadline(e *sEnd, op Op) bool {
